@@ -2096,8 +2096,18 @@ impl IndentedDisplay for XmlElement {
         } else {
             write!(f, ">")?;
 
+            // Adjacent text nodes are one run of character data, as in the compact form.
             let mut has_element = false;
+            let mut run = String::new();
             for child in self.children.borrow().as_slice() {
+                if let XmlItem::Text(text) = &**child {
+                    run.push_str(text.borrow().text.as_str());
+                    continue;
+                }
+
+                write!(f, "{}", run.replace("]]>", "]]&gt;"))?;
+                run.clear();
+
                 if child.as_element().is_some() {
                     has_element = true;
                     writeln!(f)?;
@@ -2105,6 +2115,7 @@ impl IndentedDisplay for XmlElement {
 
                 child.indented(indent + 4, f)?;
             }
+            write!(f, "{}", run.replace("]]>", "]]&gt;"))?;
 
             if has_element {
                 write!(f, "\n{}", space)?;
